@@ -35,7 +35,7 @@ ASSUMPTIONS = [
 ]
 BOUND = {
     "quick": "P: all adjacent-field pairs (full alphabets); R: reduced "
-    "product; S: serials up to 100001; E: 24 end-to-end runs",
+    "product; S: serials up to 100001; E: end-to-end runs (8 numbering / offset structures x {AMBER --noopt --nodebump, --clean} x 4 layout option sets + a 10125-atom water box)",
     "thorough": "quick + complete product of the full coordinate alphabet "
     "on x,y,z, serials up to 1234567, E over all numbering x offset "
     "combinations",
